@@ -151,10 +151,18 @@ def cmd_run(name, tier="quick", in_repo=False, other=None):
     else:
         wt = "/tmp/sr_%s" % name
         sh(["git", "-C", REPO, "worktree", "remove", "--force", wt])
-        r = sh(["git", "-C", REPO, "worktree", "add", "--detach", wt, load_meta(name).get("base", BASE)])
+        # on /repo's HEAD when the patch still applies there (later repairs of /repo are then in place);
+        # otherwise at the commit the patch was written against
+        r = sh(["git", "-C", REPO, "worktree", "add", "--detach", wt, "HEAD"])
         if r.returncode:
             print(r.stdout)
             return
+        if sh(["git", "-C", wt, "apply", "--check", os.path.join(d, "patch.diff")]).returncode:
+            sh(["git", "-C", REPO, "worktree", "remove", "--force", wt])
+            r = sh(["git", "-C", REPO, "worktree", "add", "--detach", wt, load_meta(name).get("base", BASE)])
+            if r.returncode:
+                print(r.stdout)
+                return
         target = wt
         env["CNFGEN_REPO"] = wt
     ap = sh(["git", "-C", target, "apply", os.path.join(d, "patch.diff")])
